@@ -5,6 +5,7 @@ pub mod ev;
 pub mod gen;
 pub mod refchess;
 pub mod runner;
+pub mod srch;
 pub mod uci;
 pub mod props;
 
